@@ -606,7 +606,14 @@ pub fn run_case(c: &Case, workdir: &str) -> (String, String) {
         }
         Err(e) => notes.push(format!("layout:{e}")),
     }
-    // (row-sets with no visible row, or compacted away, are not observed; they contribute nothing)
+    // row-sets of the current snapshot with no visible row are not seen by the scan above, but
+    // they are still opened by every scan (start_rowid runs on them): append them
+    if let StorageImpl::SecondaryStorage(s) = d.db.verif_storage() {
+        let (_, rowsets, _) = s.verif_snapshot(None);
+        let mut rest: Vec<usize> = rowsets.iter().map(|x| x.1 as usize).filter(|i| !snap.contains(i)).collect();
+        rest.sort();
+        snap.extend(rest);
+    }
     let lay_s = format!(
         "(lay {})",
         lay.iter().map(|(id, rows)| format!("(rs {} {})", id, rows.join(" "))).collect::<Vec<_>>().join(" ")
